@@ -8,13 +8,15 @@ from vf import gen, chain
 
 @st.composite
 def arith_instr(draw):
-    op = draw(st.sampled_from(["add", "add", "sub", "scale", "scale", "conj", "to_complex", "copy", "apply", "apply",
+    op = draw(st.sampled_from(["add", "add", "sub", "cadd", "scale", "scale", "conj", "to_complex", "copy", "apply", "apply",
                                "contract", "opmul", "conj_trans", "dm_apply", "coeff",
                                "dot", "distance", "norm", "expect", "op_add", "op_scale", "dm_add", "dm_scale",
                                "mpdm_from"]))
     a, b, o = draw(st.integers(0, 20)), draw(st.integers(0, 20)), draw(st.integers(0, 20))
     if op in ("add", "sub"):
         return {"op": op, "a": a, "b": b, "on": "S", "meth": draw(st.integers(0, 1))}
+    if op == "cadd":
+        return {"op": op, "a": a, "b": b, "on": "S"}
     if op == "op_add":
         return {"op": draw(st.sampled_from(["add", "sub"])), "a": a, "b": b, "on": "O"}
     if op == "dm_add":
@@ -73,7 +75,7 @@ def cases(draw, tier):
             prog.append(draw(chain.gauge_instr(draw(st.sampled_from(["S", "S", "S", "O", "M"])))))
         else:
             ins = draw(arith_instr())
-            if ins["op"] in ("add", "sub", "dot", "distance") and draw(st.integers(0, 2)) > 0:
+            if ins["op"] in ("add", "sub", "cadd", "dot", "distance") and draw(st.integers(0, 2)) > 0:
                 # a gauge move on one operand only, so that the two operands differ in centre / direction
                 g = draw(chain.gauge_instr(ins.get("on", "S")))
                 g["a"] = ins["a"]
